@@ -77,7 +77,7 @@ pub mod mpsc {
             let _ = self.inner.send(None);
         }
     }
-    pub use std::sync::mpsc::TryRecvError;
+    pub use std::sync::mpsc::{RecvTimeoutError, TryRecvError};
 
     impl<T> Receiver<T> {
         /// non-blocking variant (for changes of the pool that poll the queue)
@@ -90,6 +90,23 @@ pub mod mpsc {
                     Err(TryRecvError::Disconnected)
                 }
                 Err(e) => Err(e),
+            }
+        }
+
+        /// A wait with a time limit: time is not part of the model, so the limit may expire at any
+        /// moment at which nothing is queued - the waiting thread first gives every other thread the
+        /// chance to run (yield), then takes what is there or reports the timeout.
+        pub fn recv_timeout(&self, _limit: std::time::Duration) -> Result<T, RecvTimeoutError> {
+            EVENTS.fetch_add(1, Ordering::Relaxed);
+            loom::thread::yield_now();
+            match self.inner.try_recv() {
+                Ok(Some(t)) => Ok(t),
+                Ok(None) => {
+                    let _ = self.again.send(None);
+                    Err(RecvTimeoutError::Disconnected)
+                }
+                Err(TryRecvError::Disconnected) => Err(RecvTimeoutError::Disconnected),
+                Err(TryRecvError::Empty) => Err(RecvTimeoutError::Timeout),
             }
         }
 
